@@ -536,6 +536,27 @@ def parts_groups(tier):
                 gp.c09 = {"role": "part%d" % i, "text": x}
                 gr.append(gp)
             groups.append(gr)
+    # line endings inside the re-matched rules: the inner input must keep the eol policy of the outer one (choose_cfgs runs
+    # these groups under the cr and crlf policies as well)
+    EH = {"until_eol": "until< eol >", "line": "seq< star< not_at< eol >, any >, opt< eol > >", "anystar": "star< any >"}
+    ES = {"a_eol": "seq< one< 'a' >, eol >", "to_eol_eof": "seq< star< not_at< eol >, any >, eol, eof >", "eolf": "seq< star< one< 'a' > >, eolf >", "any_eol": "seq< any, eol >"}
+    for ni, name in enumerate(("rematch", "minus")):
+        for h in EH:
+            for sname in ES:
+                if tier == "quick" and (len(h) + len(sname) + ni) % 2:
+                    continue
+                tags = ["c09", name + "_parts", name, "ctx:top", "eolparts", "basis:%s+%s" % (h, sname)]
+                impl = "%s< %s, %s >" % (name, EH[h], ES[sname])
+                gi = mk(impl, tags, classical_ok=False)
+                gi.c09 = {"role": "impl", "name": name, "impl": impl, "ctx": "top", "twins": [], "parts": name, "nparts": 2}
+                gr = [gi]
+                for i, x in enumerate((EH[h], ES[sname])):
+                    gp = mk(x, tags + ["part"], classical_ok=False)
+                    gp.c09 = {"role": "part%d" % i, "text": x}
+                    gr.append(gp)
+                for g in gr:
+                    g.alphabet = "a\r\n"
+                groups.append(gr)
     # rematch with two S
     trip = [("anystar", "a_eof", "str"), ("ab_opt_c", "plus", "cf"), ("plus", "atom", "raising"), ("anystar", "until_b", "must_eof"), ("cf", "named", "any"),
             ("named", "cfraise", "atom"), ("any2", "nlook", "look"), ("anystar", "cf", "plus_eof")]
@@ -649,6 +670,8 @@ def choose_cfgs(g, k, tier):
     if g.tags & {"rematch", "minus"}:
         # rematch.hpp has a separate code path for lazily tracked inputs
         cfgs = cfgs + [("act0", "ctl0", 1, 1, "lf_crlf", "lazy")]
+    if "eolparts" in g.tags:
+        cfgs = [("act0", "ctl0", 1, 1, "lf_crlf"), ("act0", "ctl0", 1, 1, "cr"), ("act0", "ctl0", 1, 0, "crlf"), ("act0", "ctl0", 1, 1, "cr", "lazy")]
     if g.tags & set(EOL_SENSITIVE):
         cfgs = cfgs + [("act0", "ctl0", 1, 1, "crlf"), ("act0", "ctl0", 1, 0, "cr_crlf")]
         if tier == "thorough":
